@@ -31,6 +31,8 @@ struct MsgDef {
   vector<FieldDef> fields;
   char part = 's';         // 's' active read message, fields in the slave part; 'm' active read message, fields in the
                            // master part; 'u' passive write message (uw), fields in the master part
+  bool noDst = false;      // defined WITHOUT destination address; the condition supplies ZZ (08) and ebusd derives a
+                           // clone of the message for that address, which is the one that receives the bus data
   bool scan() const { return name.empty(); }
   size_t realFields() const { size_t n = 0; for (const FieldDef& f : fields) if (!f.ignored()) n++; return n; }
   bool hasFiller() const { return realFields() != fields.size(); }
@@ -239,6 +241,7 @@ inline Config makeConfig(const string& desc) {
     int t = -1;
     refResolvable(c, p, &t);
     c.values.push_back(rotatedVectors(c.msgs[0], t));
+    if (kv.count("zz")) { if (kv["zz"] != "c") return c; c.msgs[0].noDst = true; }
     if (c.family == "alt") {
       // complementary alternative: numeric values not in the first list
       if (s->kind != CK_NUM) return c;
@@ -268,8 +271,9 @@ inline Config makeConfig(const string& desc) {
     p2.condName = p2.defName = "k2";
     applyShape(&p1, *s1, false);
     applyShape(&p2, *s2, false);
-    if (var == "same" || var == "samei") {
+    if (var == "same" || var == "samei" || var == "samez") {
       // samei: a filler between the two judged fields (its byte takes a value that satisfies neither part where possible)
+      // samez: the message has no destination address, both conditions supply ZZ (the second finds the existing clone)
       bool filler = var == "samei";
       c.msgs.push_back(makeMsg("ref", "b5090d0000", string(1, s1->kind == CK_STR ? 'S' : 'N') + (filler ? "i" : "") + string(1, s2->kind == CK_STR ? 'S' : 'N')));
       size_t i2 = filler ? 2 : 1;
@@ -292,12 +296,14 @@ inline Config makeConfig(const string& desc) {
         vv.push_back(v);
       }
       c.values.push_back(vv);
-    } else if (var == "two" || var == "twoi") {
+      if (var == "samez") c.msgs[0].noDst = true;
+    } else if (var == "two" || var == "twoi" || var == "twoz") {
       // twoi: both referenced messages start with a 2-byte filler
       bool filler = var == "twoi";
       size_t fi = filler ? 1 : 0;
       c.msgs.push_back(makeMsg("ref", "b5090d0000", string(filler ? "j" : "") + string(1, s1->kind == CK_STR ? 'S' : 'N')));
       c.msgs.push_back(makeMsg("ref2", "b5090d0001", string(filler ? "j" : "") + string(1, s2->kind == CK_STR ? 'S' : 'N')));
+      if (var == "twoz") c.msgs[0].noDst = c.msgs[1].noDst = true;
       p1.msg = 0; p2.msg = 1;
       p1.fieldRef = p1.kind == CK_SEEN ? "" : (filler ? "f1" : "f0");
       p2.fieldRef = p2.kind == CK_SEEN ? "" : (filler ? "f1" : "f0");
@@ -343,6 +349,7 @@ inline Config makeConfig(const string& desc) {
     int t = -1;
     refResolvable(c, p, &t);
     c.values.push_back(rotatedVectors(c.msgs[0], t));
+    if (kv.count("zz")) { if (kv["zz"] != "c") return c; c.msgs[0].noDst = true; }
     c.valid = true;
   } else if (c.family == "scan") {
     const Shape* s = findShape(shape);
@@ -369,6 +376,7 @@ inline string fieldClass(const Config& c, const Part& p) {
   string n = m.realFields() > 1 ? "-multi" : "-single";
   if (m.hasFiller()) n += "-ign";                 // layout with ignored filler bytes
   if (m.part != 's') n += string("@") + m.part;   // value in the master part (active read / passive write)
+  if (m.noDst) n += "-clone";                     // the condition supplies the destination address of the message
   if (p.fieldRef.empty()) return "unnamed" + n;
   for (const FieldDef& f : m.fields) {
     if (!f.ignored() && f.name == p.fieldRef) {
@@ -460,6 +468,36 @@ inline vector<string> enumerate(bool thorough) {
     for (const char* var : {"samei", "twoi"}) for (const char* s1 : {"list", "ge", "string"}) for (const char* s2 : {"range", "lt", "strlist"}) {
       out.push_back(string("fam=and;var=") + var + ";s1=" + s1 + ";s2=" + s2);
     }
+  }
+  // referenced message defined without destination address, ZZ supplied by the condition (per-address clone)
+  {
+    for (const char* l : {"N", "S", "NS", "jN", "SN"}) {
+      string lay = l;
+      if (!thorough && lay == "SN") continue;
+      size_t first = 0;
+      while (lay[first] == 'i' || lay[first] == 'j') first++;
+      for (const Shape& s : shapes()) {
+        vector<string> refs;
+        if (s.kind == CK_SEEN) {
+          refs = {"u"};
+        } else {
+          for (size_t i = 0; i < lay.size(); i++) if (lay[i] != 'i' && lay[i] != 'j') { char b[8]; snprintf(b, sizeof(b), "n%zu", i); refs.push_back(b); }
+          if ((lay[first] != 'S') == (s.kind == CK_NUM)) refs.push_back("u");
+          refs.push_back("x");
+        }
+        for (const string& r : refs) out.push_back("fam=simple;lay=" + lay + ";zz=c;shape=" + s.name + ";ref=" + r);
+      }
+    }
+    for (const char* s : {"list", "lt"}) out.push_back(string("fam=alt;lay=N;zz=c;shape=") + s + ";ref=n0");
+    for (const char* base : {"list", "seen"}) for (const char* s : {"list", "range", "lt", "ge"}) {
+      out.push_back(string("fam=derived;base=") + base + ";lay=N;zz=c;shape=" + s + ";ref=n0");
+      out.push_back(string("fam=derived;base=") + base + ";lay=SN;zz=c;shape=" + s + ";ref=n1");
+    }
+    for (const char* s : {"string", "strlist"}) out.push_back(string("fam=derived;base=seen;lay=S;zz=c;shape=") + s + ";ref=n0");
+    for (const char* var : {"samez", "twoz"}) for (const char* s1 : {"list", "ge", "string"}) for (const char* s2 : {"range", "lt", "strlist"}) {
+      out.push_back(string("fam=and;var=") + var + ";s1=" + s1 + ";s2=" + s2);
+    }
+    out.push_back("fam=and;var=twoz;s1=seen;s2=lt");
   }
   for (const char* s : {"list", "string", "seen"}) out.push_back(string("fam=simple;lay=N;shape=") + s + ";ref=nomsg");
   // two alternative definitions guarded by complementary conditions
